@@ -101,17 +101,17 @@ class ControlVariates:
         self._underlying_functions = []
         self.nb_cvs = len(prices)
 
-    def initialisation(self, payoff_underlying_type) -> None:
+    def initialisation(self, payoff_underlying) -> None:
         """If two underlyings are closely related, for example S and log(S), one don't need to compute each of them as
         one can be implied from this other. This function aims to implement this logic.
 
-        :param payoff_underlying_type: this the :func:`type()` of the payoff underlying object
+        :param payoff_underlying: the payoff underlying object of the priced product
 
             .. todo:: we need to `order` the underlying so that one can be computed from another or at least
                       we need some kind of hierarchy mapping to express this relationship.
         """
         self._underlying_functions = [
-            p.payoff_underlying.imply_from_payoff_underlying(payoff_underlying_type)
+            p.payoff_underlying.imply_from_payoff_underlying(payoff_underlying)
             for p in self.products
         ]
 
@@ -322,7 +322,7 @@ class NoControlVariates(ControlVariates):
     ) -> np.array:
         return 0.0
 
-    def initialisation(self, payoff_underlying_type) -> None:
+    def initialisation(self, payoff_underlying) -> None:
         pass
 
     def compute_coefficients(self, statistics: "MCStatistics"):
